@@ -116,8 +116,6 @@ def Buf.snap (b : Buf) (st : Store) (sim : Bool) : Snap :=
     ents := b.getRange 0 dumpMax, vol := st.v.ents, dur := if sim then some st.d.ents else none,
     boundary := st.v.boundary }
 
-def snapPanics (b : Buf) : Bool := (List.range (gridIdx + 1)).any b.entryTermPanics
-
 def Snap.show (o : Snap) : String :=
   let grid (l : List (Option Nat)) := ",".intercalate (l.map showOptNat)
   s!"L={showOptPair o.lastLogId} F={o.first} M={o.last} D={o.durable} X={if o.isEmpty then 1 else 0} " ++
@@ -184,25 +182,22 @@ def obsDiff (p : Plain) (o : Snap) : Option String :=
   else if o.isEmpty != p.ents.isEmpty || o.lastEntry != p.ents.getLast? then some "c19-last-entry"
   else none
 
-/-- Walk the case while its operations are (at least weakly) well-formed; compare every record of the
-    implementation with the plain log. `gapped` = an earlier operation was only weakly well-formed (it handed the
-    log entries with an index gap); every later difference is then reported under one name. -/
-def c19Walk : Plain → Bool → List Op → List (String × Snap) → Nat → Option String × Nat
-  | _, _, [], _, n => (none, n)
-  | _, _, _, [], n => (none, n)
-  | p, gapped, op :: ops, (res, o) :: recs, n =>
-    if !wfOpWeak p op then (none, n)
+/-- walk the well-formed prefix of the case; compare every record of the implementation with the plain log -/
+def c19Walk : Plain → List Op → List (String × Snap) → Nat → Option String × Nat
+  | _, [], _, n => (none, n)
+  | _, _, [], n => (none, n)
+  | p, op :: ops, (res, o) :: recs, n =>
+    if !wfOp p op then (none, n)
     else
-      let gapped := gapped || !wfOp p op
       let (p', r) := p.exec op
       let resOk := match op with
         | .fca .. => res == showRes r
         | .get .. => res == showRes r
         | _ => true
-      let diff := if !resOk then some "c19-op-result" else obsDiff p' o
-      match diff with
-      | some sig => (some (if gapped then "c19-gapped-log" else sig), n + 1)
-      | none => c19Walk p' gapped ops recs (n + 1)
+      if !resOk then (some "c19-op-result", n + 1)
+      else match obsDiff p' o with
+        | some sig => (some sig, n + 1)
+        | none => c19Walk p' ops recs (n + 1)
 
 def monitorC19 (c : Case) (out : String) : String :=
   if out == "panic" || out == "sched-fail" || out == "bad-case" then
@@ -211,7 +206,7 @@ def monitorC19 (c : Case) (out : String) : String :=
   else match parseOutput out with
     | none => "bad c19-unparsable-output"
     | some recs =>
-      match c19Walk {} false c.ops recs 0 with
+      match c19Walk {} c.ops recs 0 with
       | (some sig, _) => "bad " ++ sig
       | (none, 0) => "skip"
       | (none, _) => "ok"
